@@ -29,6 +29,10 @@ def run(ctx):
     E.e10_memo_keyed_by_arguments(ctx)
     ctx.floor("W4", 1)
     X.x6_fallback_contract(ctx)
+    # the expansion extracts through the forest extractor, which replays the offered pack
+    from ..engines import provenance as PV
+    PV.a5_application_discipline(ctx, rule_id="E4", only={"ForestRuleExtractor._rules_for_class"})
+    ctx.floor("E4", 2)
     ctx.floor("X6", 2)
     ctx.floor("E10", 7)
     ctx.floor("X1", 4)
